@@ -16,9 +16,10 @@
    and that the code before the repair enforced (a)-(e) only, which makes the remainder-after-queries attack a
    theorem about it (C05_adaptive_remainder_accepted_unrepaired). *)
 From Coq Require Import List Arith Bool ZArith.
-From VBase Require Import FieldOps.
+From VBase Require Import FieldOps MachInt.
+From VGen Require Import FriInt.
 From VModel Require Import Merkle Fri FriMerkle.
-From VProofs Require Import MerkleSingle MerkleBind FriAccept FriBinding FriCount FriMerkleInst FriExamples.
+From VProofs Require Import MerkleSingle MerkleBind FriAccept FriBinding FriCount FriMerkleInst FriGen FriExamples.
 Import ListNotations.
 Local Open Scope nat_scope.
 
@@ -156,6 +157,77 @@ Theorem C05_fri_query_counting_partial : forall (F : Type) (O : FOps F) (gen_off
   = (n - bad) ^ q /\ length (vectors n q) = n ^ q.
 Proof. exact (@fri_query_counting_partial). Qed.
 Print Assumptions C05_fri_query_counting_partial.
+
+(* fri_query_counting_lde_partial — the counting step from the FIRST-layer (LDE) query positions: domain D = n * N^k,
+   k foldings by N (fold_positions = mod + dedup, [fold_chain]), last layer of n points of which `bad` are bad.  Every
+   last-layer position has exactly N^k preimages; check (e) on the folded positions passes iff every query position
+   reduces mod n to a good position; exactly (D - bad * N^k)^q of the D^q position vectors pass, i.e. a fraction
+   ((D - bad * N^k) / D)^q = (1 - bad/n)^q.  Still pure counting (partial): missing towards the epsilon of the
+   property are (1) that the q positions are uniform and independent (they come from the coin: C19 / random-oracle
+   assumption), (2) the same argument for the folding checks (b) at the intermediate layers, and (3) the
+   proximity-gap theorem relating the distance of the committed function from the code to `bad` and to the
+   probability over the challenges alpha. *)
+Theorem C05_fri_query_counting_lde_partial : forall (F : Type) (O : FOps F) (gen_offset : F) R g E n N k q,
+  N <> 0 -> n <> 0 ->
+  let D := n * N ^ k in
+  let bad := length (filter (fun p => negb (good_position O gen_offset R g E p)) (seq 0 n)) in
+  length (filter (fun ps => let last := fold_chain k ps D N in
+                            remainder_check O gen_offset R g last (map (fun p => nth p E (fzero O)) last))
+                 (vectors D q))
+  = (D - bad * N ^ k) ^ q /\ length (vectors D q) = D ^ q.
+Proof. exact (@fri_query_counting_lde_partial). Qed.
+Print Assumptions C05_fri_query_counting_lde_partial.
+
+(* ---------------------------------------------------------------- round 4: the model computes the GENERATED integer terms
+   (coq/Gen/FriInt.v, regenerated from fri/src by rs2v on every run) *)
+(* FriProof::parse_layers: the guard `domain_size < folding_factor` and the division, as the model's parse_layers does *)
+Theorem C05_gen_parse_layers : forall F D (h : list F -> D) MN N d pl rest, N <> 0 ->
+  parse_layers D h MN N d (pl :: rest) =
+  match fri_parse_layers_step (Z.of_nat d) (Z.of_nat N) 0 with
+  | None => Some None
+  | Some ds =>
+    match parse_layer D h MN N (Z.to_nat ds) pl with
+    | None => None
+    | Some None => Some None
+    | Some (Some (q, mp)) =>
+      match parse_layers D h MN N (Z.to_nat ds) rest with
+      | None => None
+      | Some None => Some None
+      | Some (Some (qs, mps)) => Some (Some (q :: qs, mp :: mps))
+      end
+    end
+  end.
+Proof. exact parse_layers_unfold_gen. Qed.
+Print Assumptions C05_gen_parse_layers.
+
+(* FriVerifier::new: the domain size, when the checked arithmetic does not overflow *)
+Theorem C05_gen_verifier_domain : forall m o,
+  fri_verifier_new_domain_ok (Z.of_nat m) (gopts o) = true ->
+  fri_verifier_new_domain (Z.of_nat m) (gopts o) = Z.of_nat (Fri.next_pow2 (m + 1) * fo_blowup o).
+Proof. exact verifier_new_domain_gen. Qed.
+Print Assumptions C05_gen_verifier_domain.
+
+(* FriVerifier::new: one iteration of the commitment loop of the model (draw_alphas) performs the generated degree-truncation
+   test and division of the running bound *)
+Theorem C05_gen_draw_alphas_head : forall F D CS (reseed : CS -> D -> CS) (draw : CS -> CS * draw_res F)
+  coin c rest depth o mdp1 coin2 alpha, fo_folding o <> 0 -> u64 (S (length rest)) ->
+  draw (reseed coin c) = (coin2, DrawOk alpha) ->
+  draw_alphas D CS reseed draw coin (c :: rest) depth (length (c :: rest) - 1) mdp1 (fo_folding o)
+  = match fri_verifier_new_step (Z.of_nat depth) (Z.of_nat (length (c :: rest))) (gopts o) (Z.of_nat mdp1) with
+    | None => Err (DegreeTruncation (mdp1 - 1) (fo_folding o) depth)
+    | Some m =>
+      bind (draw_alphas D CS reseed draw coin2 rest (S depth) (length (c :: rest) - 1) (Z.to_nat m) (fo_folding o))
+           (fun r => let (cF, al) := r in Ok (cF, alpha :: al))
+    end.
+Proof. exact draw_alphas_head_gen. Qed.
+Print Assumptions C05_gen_draw_alphas_head.
+
+(* verify_generic: the per-layer divisibility test (c) and the remainder length test (d) of the model are the generated ones *)
+Theorem C05_gen_degree_checks : forall mdp1 N depth len, N <> 0 ->
+  fri_verify_layer_bound (Z.of_nat mdp1) (Z.of_nat N) depth = (if negb (mdp1 mod N =? 0) then None else Some true) /\
+  fri_verify_remainder_bound (Z.of_nat len) (Z.of_nat mdp1) = (if mdp1 <? len then None else Some true).
+Proof. intros. split; [now apply verify_layer_bound_gen | apply verify_remainder_bound_gen]. Qed.
+Print Assumptions C05_gen_degree_checks.
 
 (* non-vacuity of the characterisation: the executable instantiation (f64, ToyHasher, one FRI layer, queries 1, 5, 6 with a
    collision after folding) accepts the model prover's proof, and answers RemainderCommitmentMismatch when the remainder is
